@@ -115,8 +115,30 @@ func historyDigest() string {
 	return digest(a, b)
 }
 
+// tgtPtr has a pointer in it: rendering it, or an error that mentions it, must not depend on
+// where the allocator put things.
+type tgtPtr struct {
+	Name string
+	AB   int
+	P    *int
+	M    map[string]*tgtAB
+}
+
 func newTarget(kind string) any {
 	switch kind {
+	// targets Bind refuses (the usual slips: one & too many, a value instead of a pointer, a
+	// slice for a struct binding, something that is no struct at all), holding pointers
+	case "rej-ptrptr":
+		p := &tgtPtr{P: new(int), M: map[string]*tgtAB{"k": {}}}
+		return &p
+	case "rej-value":
+		return tgtPtr{P: new(int), M: map[string]*tgtAB{"k": {}}}
+	case "rej-slice":
+		return &[]tgtPtr{{P: new(int)}, {M: map[string]*tgtAB{"k": {}}}}
+	case "rej-chan":
+		return make(chan *tgtPtr, 1)
+	case "rej-func":
+		return func() *tgtPtr { return nil }
 	case "ab":
 		return &tgtAB{}
 	case "ab-slice":
@@ -264,9 +286,13 @@ func (c16) Gen(seed uint64, idx int, tier string) *Scenario {
 	r := prng.New(seed, "C16", idx)
 	sc := &Scenario{Prop: "C16", Seed: seed, Idx: idx, API: "ParseFile", Name: "f.bcl"}
 	if r.Chance(1, 2) {
-		kind := prng.Pick(r, []string{"ab", "ab-slice", "inner", "inner-slice", "mism", "mism-slice", "tag", "tags", "tags-slice", "print", "dups"})
+		kind := prng.Pick(r, []string{"ab", "ab-slice", "inner", "inner-slice", "mism", "mism-slice", "tag", "tags", "tags-slice", "print", "dups", "rej"})
 		sc.Class = "order:" + kind
 		sc.SetStr("target", kind)
+		if kind == "rej" {
+			sc.SetStr("target", prng.Pick(r, []string{"rej-ptrptr", "rej-value", "rej-slice", "rej-chan", "rej-func"}))
+			kind = prng.Pick(r, []string{"ab", "mism", "ab-slice"})
+		}
 		sc.Src = []byte(orderSource(r, kind))
 	} else {
 		class := prng.Pick(r, []string{"valid", "valid", "valid", "runtime-error", "runtime-error", "syntax-early", "syntax-late", "lex-late", "many-errors", "soup", "raw"})
@@ -429,7 +455,12 @@ func evalOnce(src []byte, name, target string) (dg string, parts []string) {
 			}()
 			berr = bcl.Bind(tg, ex.RawBinding)
 		}()
-		parts = append(parts, fmt.Sprintf("target=%#v", tg), "bind-error="+errText(berr), "bind-panic="+bpanic)
+		if strings.HasPrefix(target, "rej-") {
+			// the harness must not print addresses itself: only what Bind says is compared
+			parts = append(parts, "bind-error="+errText(berr), "bind-panic="+bpanic)
+		} else {
+			parts = append(parts, fmt.Sprintf("target=%#v", tg), "bind-error="+errText(berr), "bind-panic="+bpanic)
+		}
 	}
 	return digest(parts...), parts
 }
